@@ -27,6 +27,8 @@ func factsMore(x *extractor) {
 	x.factsLocks()
 	x.factsCtl()
 	x.factsResults()
+	x.factsLife()
+	x.factsLifeRelease()
 }
 
 const netceptorGo = "pkg/netceptor/netceptor.go"
@@ -1748,4 +1750,155 @@ func (x *extractor) factsResults() {
 	}
 	x.set("res_remote_offset", off)
 	x.set("res_remote_write", app)
+}
+
+// ---------------------------------------------------------------- C13: life cycle
+
+func (x *extractor) factsLife() {
+	const cm = "pkg/workceptor/command.go"
+	// Cancel: order of the steps and the final write
+	order, keeps := "unknown", false
+	if fd := x.fn(cm, "commandUnit", "Cancel"); fd != nil {
+		var steps []string
+		ast.Inspect(fd.Body, func(n ast.Node) bool {
+			switch v := n.(type) {
+			case *ast.CallExpr:
+				f := x.str(v.Fun)
+				switch {
+				case f == "proc.Signal":
+					steps = append(steps, "signal("+x.str(v.Args[0])+")")
+				case f == "proc.Wait":
+					steps = append(steps, "wait")
+				case strings.HasSuffix(f, ".UpdateBasicStatus") && len(v.Args) == 3:
+					steps = append(steps, "write("+x.str(v.Args[0])+","+x.str(v.Args[2])+")")
+				case strings.HasSuffix(f, ".UpdateFullStatus"):
+					b := x.str(v)
+					if strings.Contains(b, "WorkStateSucceeded") && strings.Contains(b, "WorkStateCanceled") {
+						steps = append(steps, "write-unless-succeeded(WorkStateCanceled)")
+						keeps = true
+					} else {
+						steps = append(steps, "update")
+					}
+				}
+			case *ast.IfStmt:
+				c := x.str(v.Cond)
+				if strings.Contains(c, "already finished") {
+					steps = append(steps, "already-finished:return")
+				}
+				if c == "!ok || ced.Pid <= 0" {
+					steps = append(steps, "no-pid:return")
+				}
+			}
+			return true
+		})
+		order = strings.Join(steps, ";")
+	}
+	x.set("life_cancel_order", order)
+	x.set("life_cancel_keeps_succeeded", keeps)
+	// the runner's writes, in source order
+	rw := "unknown"
+	if fd := x.fn(cm, "", "commandRunner"); fd != nil {
+		var ws []string
+		ast.Inspect(fd.Body, func(n ast.Node) bool {
+			if c, ok := n.(*ast.CallExpr); ok && x.str(c.Fun) == "status.UpdateBasicStatus" && len(c.Args) == 4 {
+				ws = append(ws, x.str(c.Args[1])+":"+x.str(c.Args[3]))
+			}
+			return true
+		})
+		rw = strings.Join(ws, ";")
+	}
+	x.set("life_runner_writes", rw)
+	// the daemon's writes before the runner exists
+	dw := "unknown"
+	if fd := x.fn(cm, "commandUnit", "Start"); fd != nil {
+		var ws []string
+		ast.Inspect(fd.Body, func(n ast.Node) bool {
+			if c, ok := n.(*ast.CallExpr); ok {
+				f := x.str(c.Fun)
+				if strings.HasSuffix(f, ".UpdateBasicStatus") && len(c.Args) == 3 {
+					ws = append(ws, "write("+x.str(c.Args[0])+","+x.str(c.Args[2])+")")
+				}
+				if f == "cw.runCommand" {
+					ws = append(ws, "launch")
+				}
+			}
+			return true
+		})
+		dw = strings.Join(ws, ";")
+	}
+	x.set("life_start_order", dw)
+	// generateUnitID is called with the index write lock held, and checks the directory
+	gen := "unknown"
+	if fd := x.fn("pkg/workceptor/workceptor.go", "Workceptor", "AllocateUnit"); fd != nil {
+		var ws []string
+		for _, s := range fd.Body.List {
+			t := x.str(s)
+			switch {
+			case t == "w.activeUnitsLock.Lock()":
+				ws = append(ws, "Lock")
+			case t == "defer w.activeUnitsLock.Unlock()":
+				ws = append(ws, "defer-Unlock")
+			case strings.Contains(t, "w.generateUnitID(false)"):
+				ws = append(ws, "generateUnitID(false)")
+			case strings.Contains(t, "w.activeUnits[ident] = worker"):
+				ws = append(ws, "register")
+			}
+		}
+		gen = strings.Join(ws, ";")
+	}
+	x.set("life_alloc_order", gen)
+}
+
+func (x *extractor) factsLifeRelease() {
+	rel := "unknown"
+	if fd := x.fn("pkg/workceptor/workunitbase.go", "BaseWorkUnit", "Release"); fd != nil {
+		var parts []string
+		for _, s := range fd.Body.List {
+			switch v := s.(type) {
+			case *ast.ForStmt:
+				var in []string
+				for _, t := range v.Body.List {
+					switch w := t.(type) {
+					case *ast.AssignStmt:
+						if strings.Contains(x.str(w), "RemoveAll") {
+							in = append(in, x.str(w.Lhs[0])+" "+w.Tok.String()+" RemoveAll")
+						}
+					case *ast.IfStmt:
+						in = append(in, x.str(w.Cond)+":"+x.str(w.Body.List[len(w.Body.List)-1]))
+						if el, ok := w.Else.(*ast.IfStmt); ok {
+							b := x.str(el.Body)
+							d := x.str(el.Cond) + ":"
+							if strings.Contains(b, "attemptsLeft--") {
+								d += "attemptsLeft--,"
+							}
+							if strings.Contains(b, "continue") {
+								d += "retry"
+							}
+							if strings.Contains(b, "return err") {
+								d += "|return err"
+							}
+							in = append(in, d)
+						}
+					case *ast.BranchStmt:
+						in = append(in, x.str(w))
+					}
+				}
+				parts = append(parts, "for{"+strings.Join(in, ";")+"}")
+			case *ast.ExprStmt:
+				t := x.str(v)
+				if strings.HasSuffix(t, "activeUnitsLock.Lock()") {
+					parts = append(parts, "Lock")
+				}
+				if strings.HasPrefix(t, "delete(") {
+					parts = append(parts, "delete")
+				}
+			case *ast.ReturnStmt:
+				parts = append(parts, x.str(v))
+			case *ast.IfStmt:
+				parts = append(parts, "if "+x.str(v.Cond)+":"+x.str(v.Body.List[len(v.Body.List)-1]))
+			}
+		}
+		rel = strings.Join(parts, ";")
+	}
+	x.set("life_release", rel)
 }
